@@ -1235,6 +1235,33 @@ V('selectop',
   lambda e, w: e.selectcontains(w.s[0], 'b', 'x', complement=True),
   lambda e, w: e.selecttrue(w.s[0], 'a', complement=True),
   lambda e, w: e.selectisinstance(w.s[0], 'd', (str, int), complement=True))
+# cat with the documented header= argument naming the source's own fields
+V('cat', lambda e, w: e.cat(w.s[0], header=list(w.tables[0][0])),
+  lambda e, w: e.cat(w.s[0], w.s[1], header=list(w.tables[0][0]),
+                     missing=0))
+# the three error policies, spelled out
+V('rowmapmany',
+  lambda e, w: e.rowmapmany(w.s[0], f_rowgen, header=['k', 'w'],
+                            failonerror=True),
+  lambda e, w: e.rowmapmany(w.s[0], f_rowgen, header=['k', 'w'],
+                            failonerror='inline'),
+  lambda e, w: e.rowmapmany(w.s[0], f_rowgen, header=['k', 'w'],
+                            failonerror=False))
+V('rowmap',
+  lambda e, w: e.rowmap(w.s[0], f_rowmapper, header=['k', 'n'],
+                        failonerror=True),
+  lambda e, w: e.rowmap(w.s[0], f_rowmapper, header=['k', 'n'],
+                        failonerror='inline'))
+V('fieldmap',
+  lambda e, w: e.fieldmap(w.s[0], {'A': 'a', 'n': f_rec_a},
+                          failonerror=True),
+  lambda e, w: e.fieldmap(w.s[0], {'A': 'a', 'n': f_rec_a},
+                          failonerror='inline', errorvalue=0))
+V('convert',
+  lambda e, w: e.convert(w.s[0], 'c', f_inc, failonerror=True),
+  lambda e, w: e.convert(w.s[0], 'c', f_inc, failonerror='inline'),
+  lambda e, w: e.convert(w.s[0], ('a', 'c'), f_inc, failonerror=False,
+                         errorvalue=-1))
 # (the function form, called on the source as it is)
 V('cache', lambda e, w: _cache(e)(w.s[0]),
   lambda e, w: _cache(e)(w.s[0], n=3),
